@@ -161,7 +161,7 @@ def run(ctx):
     jobs = []
     for spec in corner_specs():
         jobs.append((spec, 80, list(range(0, 41)) + [60, 100]))
-    n = 1600 if quick else 30000
+    n = 1600 if quick else 16000
     for _ in range(n):
         d = rng.choice([1, 2, 2, 3, 3, 4])
         spec = L.gen_tree(rng, d)
